@@ -54,7 +54,9 @@ def universe(tier, rng, streams):
                 if h % 7 == 0:
                     variants.append({"dir": True})
                 if o != "none" and h % 7 == 1:
-                    variants.append({"closing_after": True})
+                    variants.append({"closing": "after"})
+                if o != "none" and k >= 1 and h % 7 in (2, 3):
+                    variants.append({"closing": "closed"})
                 for v in variants:
                     scn = dict({"name": name, "open": o, "typed": k}, **v)
                     key = json.dumps(scn, sort_keys=True)
@@ -93,7 +95,7 @@ def describe(trace, matched):
 
 
 def slim(t):
-    return {"name": t["name"], "open": t["open"], "typed": t["typed"], "closing_after": bool(t["closing_after"]), "steps": [{"cmd": "complete", "obs": {"ok": t["steps"][0]["obs"]["ok"]}}]}
+    return {"name": t["name"], "open": t["open"], "typed": t["typed"], "closing": t["closing"], "steps": [{"cmd": "complete", "obs": {"ok": t["steps"][0]["obs"]["ok"]}}]}
 
 
 def run(tier, seed, replay=None):
@@ -109,7 +111,7 @@ def run(tier, seed, replay=None):
         payload = json.load(open(replay))["payload"]
         t = payload["trace"]
         if "name" in t:
-            scns = [{k: t[k] for k in ("name", "open", "typed", "dir", "closing_after") if k in t}]
+            scns = [{k: t[k] for k in ("name", "open", "typed", "dir", "closing") if k in t}]
         else:
             scns, ascns = [], [{"text": t["text"], "cursor": t["cursor"]}]
     else:
